@@ -595,11 +595,15 @@ def cpu_count_logical():
     try:
         return os.sysconf("SC_NPROCESSORS_ONLN")
     except ValueError:
-        # as a second fallback we try to parse /proc/cpuinfo
+        # as a second fallback we try to parse /proc/cpuinfo: count the
+        # per-CPU "processor : N" lines (s390: "processor N: ..."). ARM
+        # kernels < 3.8 also print a "Processor : <model name>" line,
+        # which is not a CPU.
         num = 0
+        search = re.compile(rb'processor\s*:?\s*\d', re.IGNORECASE)
         with open_binary(f"{get_procfs_path()}/cpuinfo") as f:
             for line in f:
-                if line.lower().startswith(b'processor'):
+                if search.match(line):
                     num += 1
 
         # unknown format (e.g. amrel/sparc architectures), see:
